@@ -4,6 +4,7 @@ package mc
 
 import (
 	"fmt"
+	sdk "github.com/cosmos/cosmos-sdk/types"
 	"os"
 	"strings"
 	"time"
@@ -185,6 +186,14 @@ func RunTrace(prop, root string, ops []string) int {
 			for _, pi := range w.App.MasterchefKeeper.GetAllPoolInfos(ctx) {
 				fmt.Printf("   pool %d tvl=%s ext_denoms=%v atomPrice=%s usdcPrice=%s\n", pi.PoolId, w.App.MasterchefKeeper.GetPoolTVL(ctx, pi.PoolId), pi.ExternalRewardDenoms, w.App.OracleKeeper.GetAssetPriceFromDenom(ctx, "uatom"), w.App.OracleKeeper.GetAssetPriceFromDenom(ctx, "uusdc"))
 			}
+		}
+		if os.Getenv("VERIF_DUMP_POOL1") != "" && br.OK() {
+			ctx := w.RCtx()
+			pid := uint64(1)
+			fmt.Sscanf(os.Getenv("VERIF_DUMP_POOL1"), "%d", &pid)
+			pool, _ := w.App.AmmKeeper.GetPool(ctx, pid)
+			tr := sdk.MustAccAddressFromBech32(pool.RebalanceTreasury)
+			fmt.Printf("   pool1 assets=%v treasury=%s threshold=%s distance=%s\n", pool.PoolAssets, w.App.BankKeeper.GetAllBalances(ctx, tr), w.App.AmmKeeper.GetParams(ctx).ThresholdWeightDifference, pool.WeightDistanceFromTarget(ctx, w.App.OracleKeeper, pool.PoolAssets))
 		}
 		if os.Getenv("VERIF_DUMP_LLP") != "" && br.OK() {
 			ctx := w.RCtx()
